@@ -229,7 +229,18 @@ def explore(make_bodies, prefix_dir, bound, check, max_executions=None):
     frontier = [(first, ()) for first in range(n)]  # bound 0
     for b in range(bound + 1):
         nxt = []
+        if max_executions is not None:
+            remaining = max_executions - stats["executions"]
+            if len(frontier) > max(remaining, 0):
+                # capped: spread the budget evenly over the (deterministically ordered) frontier
+                # instead of spending it on the earliest preemption points; reported as capped
+                stats["capped"] = True
+                stride = len(frontier) // max(remaining, 1) + 1
+                frontier = frontier[::stride]
         for first, pre in frontier:
+            if max_executions is not None and stats["executions"] >= max_executions:
+                stats["capped"] = True
+                break
             try:
                 exe = run(first, pre)
                 bad = check(exe)
@@ -260,6 +271,7 @@ def explore(make_bodies, prefix_dir, bound, check, max_executions=None):
                             if key not in seen:
                                 seen.add(key)
                                 nxt.append((first, cand))
-        stats["bound_completed"] = b
+        if not stats.get("capped"):
+            stats["bound_completed"] = b
         frontier = nxt
     return found, stats
